@@ -360,7 +360,7 @@ func genSrcFile(t *rapid.T, name string, minAnnotated int) *SrcFile {
 	}).Draw(t, "header")
 	if rapid.IntRange(0, 39).Draw(t, "longLine") == 0 {
 		// one very long line (beyond 64 KiB, the default buffer of line scanners) ahead of everything else
-		s.Decls = append(s.Decls, SrcDecl{Kind: "other", Text: "const long = \"" + strings.Repeat("x", rapid.SampledFrom([]int{65530, 65536, 70000, 140000}).Draw(t, "lineLen")) + "\" // @tag valid:\"not a field\""})
+		s.Decls = append(s.Decls, SrcDecl{Kind: "other", Text: "const long = \"" + strings.Repeat("x", rapid.SampledFrom([]int{65530, 65536, 70000, 140000, 140000, 1100000}).Draw(t, "lineLen")) + "\" // @tag valid:\"not a field\""})
 	}
 	n := rapid.IntRange(1, 6).Draw(t, "nDecls")
 	sn := 0
